@@ -1071,6 +1071,11 @@ func (e *Engine) pureFuncs(prop string) ([]staticResult, []string) {
 						if g, ok := x.X.(*ssa.Global); ok && g.Pkg != nil && strings.HasPrefix(g.Name(), "init$") {
 							continue
 						}
+						// an element of a package-level table of plain values that nothing but the package
+						// initialiser writes (the generated keyword tables)
+						if g := tableOf(x.X); g != nil && immutableTable(g) {
+							continue
+						}
 						problems = append(problems, fmt.Sprintf("%s: reads shared memory through %s", posOf(e, x.Pos()), x.X.Type()))
 					case *ssa.Lookup:
 						if _, isMap := x.X.Type().Underlying().(*types.Map); isMap && !freshOrigin(x.X, map[ssa.Value]bool{}) {
@@ -1818,4 +1823,116 @@ func (e *Engine) stringsViaOrder(prop string) ([]staticResult, []string) {
 		r.Status, r.Detail = "fail", fmt.Sprintf("natsort.Strings is not the single call sort.Sort(Order(a)) (%d blocks, %d calls)", len(fn.Blocks), ncalls)
 	}
 	return []staticResult{r}, nil
+}
+
+
+// tableOf: addr is the address of an element of a package-level array (directly, or through a slice of it).
+func tableOf(addr ssa.Value) *ssa.Global {
+	ia, ok := addr.(*ssa.IndexAddr)
+	if !ok {
+		return nil
+	}
+	switch b := ia.X.(type) {
+	case *ssa.Global:
+		return b
+	case *ssa.Slice:
+		if g, ok := b.X.(*ssa.Global); ok {
+			return g
+		}
+	}
+	return nil
+}
+
+// immutableTable: g is a package-level array of basic values of a /repo package, and in that package (outside the
+// package initialiser) g is only ever indexed or sliced for reading: no store through it, its address never escapes.
+func immutableTable(g *ssa.Global) bool {
+	if g.Pkg == nil || !inRepoPkg(g.Pkg.Pkg) {
+		return false
+	}
+	arr, ok := g.Type().(*types.Pointer).Elem().Underlying().(*types.Array)
+	if !ok {
+		return false
+	}
+	if b, ok := arr.Elem().Underlying().(*types.Basic); !ok || b.Kind() == types.UnsafePointer {
+		return false
+	}
+	readOnly := func(v ssa.Value) bool {
+		// v: an element address; every use is a load
+		for _, r := range *v.Referrers() {
+			if u, ok := r.(*ssa.UnOp); !ok || u.Op != token.MUL {
+				return false
+			}
+		}
+		return true
+	}
+	var fns []*ssa.Function
+	var add func(f *ssa.Function)
+	add = func(f *ssa.Function) {
+		fns = append(fns, f)
+		for _, a := range f.AnonFuncs {
+			add(a)
+		}
+	}
+	for _, mem := range g.Pkg.Members {
+		switch m := mem.(type) {
+		case *ssa.Function:
+			add(m)
+		case *ssa.Type:
+			for _, t := range []types.Type{m.Type(), types.NewPointer(m.Type())} {
+				ms := g.Pkg.Prog.MethodSets.MethodSet(t)
+				for i := 0; i < ms.Len(); i++ {
+					if f := g.Pkg.Prog.MethodValue(ms.At(i)); f != nil && f.Pkg == g.Pkg {
+						add(f)
+					}
+				}
+			}
+		}
+	}
+	for _, f := range fns {
+		if f.Name() == "init" && f.Parent() == nil {
+			continue
+		}
+		for _, b := range f.Blocks {
+			for _, ins := range b.Instrs {
+				uses := false
+				for _, op := range ins.Operands(nil) {
+					if op != nil && *op == ssa.Value(g) {
+						uses = true
+					}
+				}
+				if !uses {
+					continue
+				}
+				switch x := ins.(type) {
+				case *ssa.IndexAddr:
+					if x.X != ssa.Value(g) || !readOnly(x) {
+						return false
+					}
+				case *ssa.Slice:
+					if x.X != ssa.Value(g) {
+						return false
+					}
+					for _, r := range *x.Referrers() {
+						switch y := r.(type) {
+						case *ssa.IndexAddr:
+							if y.X != ssa.Value(x) || !readOnly(y) {
+								return false
+							}
+						case *ssa.Call:
+							if bi, ok := y.Call.Value.(*ssa.Builtin); !ok || (bi.Name() != "len" && bi.Name() != "cap") {
+								return false
+							}
+						case *ssa.DebugRef:
+						default:
+							return false
+						}
+					}
+				case *ssa.DebugRef:
+				default:
+					return false
+				}
+			}
+		}
+	}
+	return true
 }
